@@ -74,16 +74,16 @@ impl vstd::std_specs::cmp::PartialOrdSpecImpl for StyleOrigin {
 impl<'a> vstd::std_specs::ops::AddSpecImpl<&'a Specificity> for &'a Specificity {
     open spec fn obeys_add_spec() -> bool { true }
     open spec fn add_req(self, rhs: &Specificity) -> bool { add_fits(*self, *rhs) }           //@w @C01 #spec_add_no_overflow
-    open spec fn add_spec(self, rhs: &Specificity) -> Specificity { add_val(*self, *rhs) }     //@w @C19 @C20 #spec_add_value
+    open spec fn add_spec(self, rhs: &Specificity) -> Specificity { add_val(*self, *rhs) }     //@w @C18 @C19 @C20 #spec_add_value
 }
 impl<'a> vstd::std_specs::ops::AddAssignSpecImpl<&'a Specificity> for Specificity {
     open spec fn obeys_add_assign_spec() -> bool { true }
     open spec fn add_assign_req(&self, rhs: &Specificity) -> bool { add_fits(*self, *rhs) }    //@w @C01 #spec_addassign_no_overflow
-    open spec fn add_assign_spec(&self, rhs: &Specificity) -> &Specificity { &add_val(*self, *rhs) } //@w @C19 @C20 #spec_addassign_value
+    open spec fn add_assign_spec(&self, rhs: &Specificity) -> &Specificity { &add_val(*self, *rhs) } //@w @C18 @C19 @C20 #spec_addassign_value
 }
 impl vstd::std_specs::cmp::PartialOrdSpecImpl for Specificity {
     open spec fn obeys_partial_cmp_spec() -> bool { true }
-    open spec fn partial_cmp_spec(&self, other: &Specificity) -> Option<core::cmp::Ordering> {     //@w @C19 #specificity_order_is_lexicographic
+    open spec fn partial_cmp_spec(&self, other: &Specificity) -> Option<core::cmp::Ordering> {     //@w @C18 @C19 #specificity_order_is_lexicographic
         if spec_lt(*self, *other) { Some(core::cmp::Ordering::Less) }
         else if spec_lt(*other, *self) { Some(core::cmp::Ordering::Greater) }
         else { Some(core::cmp::Ordering::Equal) }
@@ -93,9 +93,9 @@ impl vstd::std_specs::cmp::PartialOrdSpecImpl for Specificity {
 impl Specificity {
 //@item src/lib.rs :: impl Specificity :: fn inline
 //@sub /-> Self/ ==> -> (r: Self)
-//@auto C01 C19
+//@auto C01 C19 C18
     fn inline() -> (r: Self)
-        ensures r.inline && r.id == 0 && r.class == 0 && r.typ == 0, //@w @C19 #inline_specificity
+        ensures r.inline && r.id == 0 && r.class == 0 && r.typ == 0, //@w @C18 @C19 #inline_specificity
     {
         Specificity {
             inline: true,
@@ -110,7 +110,7 @@ impl Specificity {
 impl std::ops::Add<&Specificity> for &Specificity {
     type Output = Specificity;
 //@item src/lib.rs :: impl Add<&Specificity> :: fn add
-//@auto C01 C19 C20
+//@auto C01 C19 C20 C18
     fn add(self, rhs: &Specificity) -> Self::Output
     {
         Specificity {
@@ -125,7 +125,7 @@ impl std::ops::Add<&Specificity> for &Specificity {
 
 impl std::ops::AddAssign<&Specificity> for Specificity {
 //@item src/lib.rs :: impl AddAssign<&Specificity> :: fn add_assign
-//@auto C01 C19 C20
+//@auto C01 C19 C20 C18
     fn add_assign(&mut self, rhs: &Specificity)
     {
         self.inline = self.inline || rhs.inline;
@@ -138,7 +138,7 @@ impl std::ops::AddAssign<&Specificity> for Specificity {
 
 impl PartialOrd for Specificity {
 //@item src/lib.rs :: impl PartialOrd for Specificity :: fn partial_cmp
-//@auto C01 C19
+//@auto C01 C19 C18
     fn partial_cmp(&self, other: &Self) -> Option<std::cmp::Ordering>
     {
         proof { axiom_bool_partial_cmp(); } //@w
@@ -171,7 +171,7 @@ pub struct WithSpec<T> {
 
 impl<T: Clone> WithSpec<T> {
 //@item src/lib.rs :: impl WithSpec :: fn maybe_update
-//@auto C01 C19
+//@auto C01 C19 C18
     pub fn maybe_update(
         &mut self,
         important: bool,
@@ -182,10 +182,10 @@ impl<T: Clone> WithSpec<T> {
         requires origin != StyleOrigin::None, //@w
             old(self).val.is_some() && old(self).origin == StyleOrigin::None ==> !old(self).important, //@w
         ensures //@w
-            old(self).val.is_none() || key_ge(important, origin, specificity, old(self).important, old(self).origin, old(self).specificity) //@w @C19 #cascade_new_wins
-                ==> final(self).val == Some(val) && final(self).origin == origin && final(self).specificity == specificity && final(self).important == important, //@w @C19 #cascade_new_wins
-            !(old(self).val.is_none() || key_ge(important, origin, specificity, old(self).important, old(self).origin, old(self).specificity)) //@w @C19 #cascade_old_stays
-                ==> *final(self) == *old(self), //@w @C19 #cascade_old_stays
+            old(self).val.is_none() || key_ge(important, origin, specificity, old(self).important, old(self).origin, old(self).specificity) //@w @C18 @C19 #cascade_new_wins
+                ==> final(self).val == Some(val) && final(self).origin == origin && final(self).specificity == specificity && final(self).important == important, //@w @C18 @C19 #cascade_new_wins
+            !(old(self).val.is_none() || key_ge(important, origin, specificity, old(self).important, old(self).origin, old(self).specificity)) //@w @C18 @C19 #cascade_old_stays
+                ==> *final(self) == *old(self), //@w @C18 @C19 #cascade_old_stays
     {
         if self.val.is_some() {
             // We already have a value, so need to check.
@@ -282,10 +282,10 @@ impl Selector {
 //@item src/css.rs :: impl Selector :: fn specificity
 //@sub /-> Specificity/ ==> -> (r: Specificity)
 //@sub /for component in &self\.components/ ==> for component in it: &self.components
-//@auto C01 C19 C20
+//@auto C01 C19 C20 C18
     fn specificity(&self) -> (r: Specificity)
         ensures //@w
-            !r.inline && r.id == sat16(sel_counts(*self).0 as int) && r.class == sat16(sel_counts(*self).1 as int) && r.typ == sat16(sel_counts(*self).2 as int), //@w @C19 @C20 #specificity_counts_ids_classes_elements
+            !r.inline && r.id == sat16(sel_counts(*self).0 as int) && r.class == sat16(sel_counts(*self).1 as int) && r.typ == sat16(sel_counts(*self).2 as int), //@w @C18 @C19 @C20 #specificity_counts_ids_classes_elements
         decreases self, //@w
     {
         let mut result: Specificity = Default::default();
@@ -293,7 +293,7 @@ impl Selector {
         for component in it: &self.components
             invariant //@w
                 !result.inline, //@w
-                result.id == sat16(comps_counts(self.components@, it.index@).0 as int), result.class == sat16(comps_counts(self.components@, it.index@).1 as int), result.typ == sat16(comps_counts(self.components@, it.index@).2 as int), //@w @C19 @C20 #specificity_counts_ids_classes_elements
+                result.id == sat16(comps_counts(self.components@, it.index@).0 as int), result.class == sat16(comps_counts(self.components@, it.index@).1 as int), result.typ == sat16(comps_counts(self.components@, it.index@).2 as int), //@w @C18 @C19 @C20 #specificity_counts_ids_classes_elements
         {
             proof { //@w
                 let k = it.index@; //@w
